@@ -178,7 +178,9 @@ impl DcpsDomainParticipant {
                                                 .parse()
                                                 .expect("valid number"),
                                         ) {
-                                            continue 'data_readers;
+                                            // The sample does not pass the filter: skip it, not
+                                            // the rest of the received samples
+                                            continue;
                                         }
                                     }
                                     crate::xtypes::dynamic_type::TypeKind::INT64 => todo!(),
@@ -200,7 +202,9 @@ impl DcpsDomainParticipant {
                                             member_value,
                                             &content_filtered_topic.expression_parameters[0],
                                         ) {
-                                            continue 'data_readers;
+                                            // The sample does not pass the filter: skip it, not
+                                            // the rest of the received samples
+                                            continue;
                                         }
                                     }
                                     crate::xtypes::dynamic_type::TypeKind::ALIAS => todo!(),
